@@ -189,9 +189,10 @@ Definition vty_class (v : vty) : bclass :=
 
 Definition is_iface (t : ty) : bool := match underlying t with TAny => true | _ => false end.
 
-(* a type is named if it is predeclared or defined *)
+(* a type is named if it is predeclared or defined (any is an alias of the
+   type literal interface{}) *)
 Definition is_named (t : ty) : bool :=
-  match t with TBasic _ | TNamed _ _ | TDef _ _ | TAny => true | _ => false end.
+  match t with TBasic _ | TNamed _ _ | TDef _ _ => true | _ => false end.
 
 (* nil is a value of pointer, slice, map, function and interface types *)
 Definition nillable (t : ty) : bool :=
